@@ -144,7 +144,7 @@ PROPS["C07"]["static_modules"] = PROPS["C07"]["static_modules"] + ["DecProofs.St
 
 PROPS["C07"]["theorem_modules"] = PROPS["C07"]["theorem_modules"] + ["DecProofs.Properties.C07BinConvCode"]
 
-PROPS["C01"]["theorem_modules"] = PROPS["C01"]["theorem_modules"] + ["DecProofs.Properties.C01GenDiv"]
+PROPS["C01"]["theorem_modules"] = PROPS["C01"]["theorem_modules"] + ["DecProofs.Properties.C01GenDiv", "DecProofs.Properties.C01GenDiv256"]
 PROPS["C02"]["theorem_modules"] = PROPS["C02"]["theorem_modules"] + ["DecProofs.Properties.C02GenFmaWrap"]
 
 # secondary build configuration of C02 (thorough tier): the tininess-after-rounding cargo feature
